@@ -149,7 +149,7 @@ pub fn execute(v: &Value) -> String {
     sorted.sort_by(|a, b| a.0.cmp(&b.0));
     let mut texts: BTreeMap<String, String> = BTreeMap::new();
     for (n, t) in &sorted {
-        texts.insert(Key::from_file_name(n).to_string(), t.clone());
+        texts.insert(Key::name(n).to_string(), t.clone());
     }
 
     let db0 = guard(|| Database::new(state_of(&notes), true, options.clone()));
@@ -165,7 +165,7 @@ pub fn execute(v: &Value) -> String {
 
     let mut steps = vec![];
     for (name, text) in &ops {
-        let key = Key::from_file_name(name);
+        let key = Key::name(name);
         let step_in = note_in_term(name, text, None, &options);
         // the graph update alone first (on a copy), so that a panic of the builder is told apart
         // from a panic of the path enumeration that `update_document` runs afterwards
